@@ -208,6 +208,12 @@ def case_lines(c):
     for k in POOL:
         L.append("set %d %d" % (k, c["env"].get(k, 0)))
     L.append("restart")
+    if "steps" in c:
+        for st in c["steps"]:
+            for k in sorted(st.get("set", {})):
+                L.append("set %d %d" % (k, st["set"][k]))
+            L.append("build %d sched=%s" % (st["root"], c["sched"]))
+        return L
     L.append("build %d sched=%s" % (c["root"], c["sched"]))
     if c.get("post") is not None:
         L.append("build %d sched=%s" % (c["post"], c["sched"]))
@@ -436,9 +442,36 @@ class Judge:
             if len(builds) < 2:
                 self.viol("no-result", "the build after the failed one did not run", c, broken="c07 oracle: termination")
             else:
-                allowed2 = lambda x, y: y in sem2.real.get(x, ()) or y in sem.real.get(x, ())
+                # wait-for edges of THIS build, or dependencies recorded for a key that completed in the earlier build
+                allowed2 = lambda x, y: y in sem2.real.get(x, ()) or (sem.val.get(x) is not None and y in sem.real.get(x, ()))
                 self.check_report(c, builds[1], c["post"], allowed2, "cycle" if (v2 is None or bad2) else "ok", v2, disc_cyclic=(v2 is not None and bool(bad2)),
                                   label="the build of key %d after the failed build on the same engine" % c["post"])
+
+    # ---- several builds in a row on ONE engine instance, external values changing in between (different cycles, successes in between)
+    def seq_case(self, c, builds):
+        chk = self.chk
+        env = dict(c["env"])
+        rec = {}
+        prev = None
+        chk.count(("seq", json.dumps(c["rules"], sort_keys=True), json.dumps(c["env"], sort_keys=True), json.dumps(c["steps"], sort_keys=True), c["sched"]))
+        if len(builds) < len(c["steps"]):
+            self.viol("no-result", "only %d of the %d builds of the history ran (crash or hang)" % (len(builds), len(c["steps"])), c, broken="c07 oracle: termination")
+        for i, (st, b) in enumerate(zip(c["steps"], builds)):
+            env.update({int(k): v for k, v in st.get("set", {}).items()})
+            sem = Sem(c["rules"], env)
+            root = st["root"]
+            v, bad = sem.build(root)
+            allowed = (lambda sem, rec: lambda x, y: y in sem.real.get(x, ()) or y in rec.get(x, ()))(sem, dict(rec))
+            self.stats["sequence_builds"] = self.stats.get("sequence_builds", 0) + 1
+            self.check_report(c, b, root, allowed, "cycle" if (v is None or bad) else "ok", v, disc_cyclic=(v is not None and bool(bad)),
+                              label="build %d of %d on the same engine (key %d)" % (i + 1, len(c["steps"]), root))
+            cycles, graphs, _ = parse_report(b)
+            if cycles and prev is not None and prev != cycles[0]:
+                self.stats["consecutive_failures_different_cycle"] = self.stats.get("consecutive_failures_different_cycle", 0) + 1
+            prev = cycles[0] if cycles else None
+            for x, val in sem.val.items():
+                if val is not None:
+                    rec.setdefault(x, set()).update(list(sem.real.get(x, [])) + list(sem.rule(x).get("disc", [])))
 
     # ---- two engine instances over one database: recorded dependencies
     def recorded_case(self, c, builds):
@@ -616,6 +649,49 @@ def gen_rebuilt_key(rng):
                 discipline=True, restart=restart, db=1 if restart else rng.choice([0, 1]))
 
 
+def gen_two_cycles(rng):
+    """One requested key R whose branch (chosen by the external value of x) leads into one of two DIFFERENT cycles; several builds in a
+    row on one engine with x flipped in between, optionally a successful build of another key in between."""
+    na, nc = rng.randint(1, 3), rng.randint(1, 3)
+    labels = rng.sample(POOL, 3 + na + nc)
+    R0, x, ok = labels[0], labels[1], labels[2]
+    A, C = labels[3:3 + na], labels[3 + na:]
+    rules = {x: dict(sig=0, obs=1), ok: dict(sig=0, obs=0, req=[x])}
+    for cyc in (A, C):
+        for i, k in enumerate(cyc):
+            r = dict(sig=0, obs=0, **{rng.choice(["req", "req", "req", "follow", "single"]): [cyc[(i + 1) % len(cyc)]]})
+            if rng.random() < 0.3:
+                r.setdefault("req", []).append(x)
+            rules[k] = r
+    if rng.random() < 0.3:                       # the two cycles share a key: its predecessor list differs between the searches
+        rules[C[-1]].setdefault("req", []).append(A[0])
+    rules[R0] = dict(sig=0, obs=0, req=[x], br=(0, [A[0]], [C[0]]))
+    par = {v: Sem(rules, {x: v}).ev(x)[0] % 2 for v in range(8)}
+    ev = [v for v in par if par[v] == 0]
+    od = [v for v in par if par[v] == 1]
+    steps, side = [], rng.random() < 0.5
+    for i in range(rng.randint(2, 4)):
+        steps.append(dict(set={x: rng.choice(ev if side else od)}, root=R0))
+        side = not side if rng.random() < 0.85 else side
+        if rng.random() < 0.3:
+            steps.append(dict(set={}, root=ok))
+    return dict(family="sequence", rules=rules, env={}, steps=steps)
+
+
+def gen_sequence(rng):
+    """A random rule set with back edges; 2-5 builds of random keys on one engine, leaf values changing in between."""
+    labels, rules, env = gen_dynamic(rng, nmax=8)
+    leaves = [k for k in labels if not rules[k].get("req")]
+    steps = []
+    for i in range(rng.randint(2, 5)):
+        st = {}
+        for k in leaves:
+            if rng.random() < 0.5:
+                st[k] = rng.randint(0, 5)
+        steps.append(dict(set=st, root=rng.choice(labels[len(leaves):] or labels)))
+    return dict(family="sequence", rules=rules, env=env, steps=steps)
+
+
 def corpus_cases():
     """Hand-written scenarios: the two unit tests, and the shapes named in the task."""
     out = []
@@ -651,6 +727,17 @@ def corpus_cases():
     out.append(dict(family="recorded", name="edit-introduces-cycle",
                     rules1={1: R(req=[2]), 2: R(req=[3]), 3: R(obs=1)}, env1={3: 1}, root1=1,
                     rules2={1: R(req=[2]), 2: R(req=[3]), 3: R(sig=1, obs=1, req=[1])}, env2={3: 1}, root2=1, discipline=True))
+    # several failing builds in a row on one engine with DIFFERENT cycles (value-dependent branch of key 9 flipped in between): nothing of an
+    # earlier search may show in a later report.  Names: the stale predecessor k1 sorts before the real one k2 (and k10 before k9).
+    S = lambda rules, steps, name: out.append(dict(family="sequence", name=name, rules=rules, env={}, steps=steps))
+    two = {9: R(req=[3], br=(0, [1], [2])), 3: R(obs=1), 1: R(req=[10]), 10: R(req=[1]), 2: R(req=[20]), 20: R(req=[2]), 100: R(req=[3])}
+    par = {v: Sem(two, {3: v}).ev(3)[0] % 2 for v in range(8)}
+    e0, o0 = [v for v in par if par[v] == 0][0], [v for v in par if par[v] == 1][0]
+    S(two, [dict(set={3: e0}, root=9), dict(set={3: o0}, root=9)], "two-failing-builds-different-cycles")
+    S(two, [dict(set={3: o0}, root=9), dict(set={3: e0}, root=9)], "two-failing-builds-different-cycles-reversed")
+    S(two, [dict(set={3: e0}, root=9), dict(set={3: o0}, root=9), dict(set={3: e0}, root=9)], "three-failing-builds-alternating")
+    S(two, [dict(set={3: e0}, root=9), dict(set={}, root=100), dict(set={3: o0}, root=9)], "failing-successful-failing")
+    S(two, [dict(set={3: e0}, root=9), dict(set={}, root=2), dict(set={}, root=1)], "different-requested-keys")
     # the requested key was built before and is re-run; the cycle lies among keys never built and does not contain it
     out.append(dict(family="recorded", name="rebuilt-key-cycle-elsewhere", restart=False, db=0,
                     rules1={1: R(req=[2], br=(0, [], [10])), 2: R(obs=1), 10: R(req=[11]), 11: R(req=[10])}, env1={2: 0}, root1=1,
@@ -756,6 +843,10 @@ def run(chk, only=None):
                 if cands:
                     c["post"] = rng.choice(cands)
             fresh.append(c)
+        for i in range(chk.n(300, 6000)):
+            c = gen_two_cycles(rng) if i % 2 == 0 else gen_sequence(rng)
+            c["sched"] = sched()
+            fresh.append(c)
         for i in range(chk.n(400, 4000)):
             c = gen_recorded(rng)
             c["sched"] = sched()
@@ -808,10 +899,10 @@ def run(chk, only=None):
                     J.viol("hang-or-crash", "the engine %s on this scenario (schedule %s)" % ("did not terminate within 20 s" if rc1 == -9 else "crashed (exit code %d)" % rc1, c["sched"]),
                            c, dict(rc=rc1, stderr=err1[-1500:], output=out1[-40:]), broken="c07 oracle: the build terminates")
                     continue
-                J.fresh_case(c, g1[0] if g1 else [])
+                (J.seq_case if "steps" in c else J.fresh_case)(c, g1[0] if g1 else [])
             continue
         for c, g in zip(cases, groups):
-            J.fresh_case(c, g)
+            (J.seq_case if "steps" in c else J.fresh_case)(c, g)
 
     # ---- recorded cases: one driver process each (own database)
     def do_rec(ic):
@@ -944,4 +1035,6 @@ def replay(chk, rp):
     for f in ("env", "env1", "env2"):
         if f in c:
             c[f] = {int(k): v for k, v in c[f].items()}
+    for st in c.get("steps", []):
+        st["set"] = {int(k): v for k, v in st.get("set", {}).items()}
     return run(chk, only=c)
